@@ -36,6 +36,7 @@ UnsupportedStd == {"TON", "TOF", "CTU", "R_TRIG"}
                              k = "array"  lo, hi
    var       : [n, cls, q, ty, init]     init = <<"-">> | <<"int", digits>> | <<"bool", v>> | <<"enum", value>>
    stmt      : [k = "assign", wrap, tgt, src]      src = <<"var", n>> | <<"int", d>> | <<"enumv", v>> | <<"sum", n, m>> | <<"fcall", f, n>>
+                                                          | <<"field", n, elem>>  (n.elem)  | <<"index", arr, n>>  (arr[n])
                [k = "call", wrap, inst, named : Seq(<<formal, actual>>), pos : Seq(actual), outs : Seq(<<formal, target>>)]
                wrap = <<"-">> or <<kind, name used in the control expression>>, kind in if elsif else case for while repeat
    pou       : [n, k = "fb" | "prog" | "func", vars, body]
@@ -51,6 +52,9 @@ Base == [
   \* useq: enumeration values used as initial values (variables, structure elements, defaults) are written with
   \* their type prefix (lev : LEVEL := LEVEL#LOW) - the same value either way
   useq |-> FALSE,
+  \* sfc: the POUs (function blocks, programs) whose body is a sequential function chart: the statements are the body of
+  \* an ACTION, tcond[name] is the variable in the condition of a TRANSITION ("-": the condition is TRUE)
+  sfc |-> {}, tcond |-> [n \in {"CALLEE", "CALLER", "MAIN", "EXTRA"} |-> "-"],
   \* useqalias: ... the initial values of variables and structure elements with the prefix of an ALIAS of their
   \* enumeration (lev : LEVEL := LEVEL2#LOW) - still the same value
   useqalias |-> FALSE,
@@ -71,7 +75,7 @@ Base == [
      vars |-> << V("go", "VAR_INPUT", "-", "BOOL", NoInit), V("inst", "VAR", "-", "CALLEE", NoInit), V("a", "VAR", "-", "INT", NoInit),
                  V("b", "VAR", "-", "INT", NoInit), V("flag", "VAR", "-", "BOOL", NoInit), V("lev", "VAR", "-", "LEVEL", <<"enum", "LOW">>),
                  V("lev2", "VAR", "-", "LEVEL2", <<"enum", "HIGH">>), V("p", "VAR", "-", "PT", NoInit),
-                 V("k", "VAR", "CONSTANT", "INT", <<"int", "5">>) >>,
+                 V("k", "VAR", "CONSTANT", "INT", <<"int", "5">>), V("arr", "VAR", "-", "ARR", NoInit) >>,
      body |-> << A(NoWrap, "a", <<"var", "b">>),
                  C(NoWrap, "inst", << <<"in1", "a">>, <<"in2", "flag">> >>, <<>>, << <<"out1", "b">> >>),
                  A(NoWrap, "lev", <<"enumv", "MID">>),
@@ -123,7 +127,8 @@ ValuesOf(u, name) == EnumValues(u, name, 6)
 AllEnumValues(u) == UNION {Range(t.vals) : t \in {x \in Range(u.types) : x.k = "enum"}}
 
 \* names a statement uses as variables (roles), and the function / instance names it refers to
-SrcVars(src) == CASE src[1] = "var" -> {src[2]} [] src[1] = "sum" -> {src[2], src[3]} [] src[1] = "fcall" -> {src[3]} [] OTHER -> {}
+SrcVars(src) == CASE src[1] = "var" -> {src[2]} [] src[1] = "sum" -> {src[2], src[3]} [] src[1] = "fcall" -> {src[3]}
+                  [] src[1] = "field" -> {src[2]} [] src[1] = "index" -> {src[2], src[3]} [] OTHER -> {}
 \* FOR loops also use a variable in their FROM, TO and BY expressions: <<"forfrom" | "forto" | "forby", that variable, the control variable>>
 ForParts == {"forfrom", "forto", "forby"}
 WrapVars(w) == IF w[1] \in {"-", "else"} THEN {} ELSE IF w[1] \in ForParts THEN {w[2], w[3]} ELSE {w[2]}
@@ -145,8 +150,10 @@ SubrangeOrdered(u) == \A t \in Range(u.types) : t.k = "subrange" => t.lo < t.hi
 \* P0005  values of an enumeration declaration are unique
 EnumValuesUnique(u) == \A t \in Range(u.types) : t.k = "enum" => Distinct(t.vals)
 \* P0015  every variable a POU uses is declared in that POU (a function may assign its own name)
-VarDeclared(u) == \A p \in Range(u.pous) : \A s \in Range(p.body) :
-                     StmtVars(s) \subseteq VarNames(p) \cup (IF p.k = "func" THEN {p.n} ELSE {})
+VarDeclared(u) == /\ \A p \in Range(u.pous) : \A s \in Range(p.body) :
+                        StmtVars(s) \subseteq VarNames(p) \cup (IF p.k = "func" THEN {p.n} ELSE {})
+                  \* ... and so is the variable in the condition of a transition of its chart
+                  /\ \A p \in Range(u.pous) : (p.n \in u.sfc /\ u.tcond[p.n] # "-") => u.tcond[p.n] \in VarNames(p)
 \* P0014  an enumeration value used as initial value (variable, structure element, alias default) belongs to the enumeration
 EnumValueDeclared(u) ==
   /\ \A v \in AllVars(u) : (v.init[1] = "enum" /\ ValuesOf(u, v.ty) # {}) => v.init[2] \in ValuesOf(u, v.ty)
@@ -251,6 +258,13 @@ GrowWrap == \E i \in PouIdx(unit), j \in 1..3, w \in Wraps("") :
              /\ j <= Len(unit.pous[i].body) /\ unit.pous[i].body[j].wrap = NoWrap /\ HasIntVar(unit.pous[i])
              /\ Edit(<<"grow:wrap", unit.pous[i].n, j, w[1]>>,
                      SetStmt(unit, i, j, [unit.pous[i].body[j] EXCEPT !.wrap = MkWrap(w[1], IntVar(unit.pous[i]).n)]))
+\* the body of a function block / program becomes a sequential function chart (the statements move into an action; a
+\* transition tests a declared variable) - the same statements, the same rules
+GrowSfc == \E i \in PouIdx(unit) : unit.pous[i].k \in {"fb", "prog"} /\ unit.pous[i].n \notin unit.sfc /\ HasIntVar(unit.pous[i]) /\
+             Edit(<<"grow:sfc", unit.pous[i].n>>, [unit EXCEPT !.sfc = @ \cup {unit.pous[i].n}, !.tcond[unit.pous[i].n] = IntVar(unit.pous[i]).n])
+\* a structure element and an array element as the source of an assignment (CALLER has p : PT and arr : ARR)
+GrowFieldIndex == \E src \in {<<"field", "p", "x">>, <<"index", "arr", "b">>} :
+             Edit(<<"grow:" \o src[1]>>, AddStmtTo(unit, 2, A(NoWrap, "a", src)))
 GrowEnumValue == "TOP" \notin Range(unit.types[1].vals) /\ Edit(<<"grow:enumvalue">>, [unit EXCEPT !.types[1].vals = Append(@, "TOP")])
 GrowStructElem == (\A i \in 1..Len(unit.types[3].elems) : unit.types[3].elems[i].n # "z") /\ Edit(<<"grow:structelem">>, [unit EXCEPT !.types[3].elems = Append(@, [n |-> "z", ty |-> "INT", init |-> NoInit])])
 GrowType == "COLOR" \notin TypeNames(unit) /\ Edit(<<"grow:type">>, [unit EXCEPT !.types = Append(@, [n |-> "COLOR", k |-> "enum", vals |-> <<"RED", "GREEN">>, def |-> "RED", qual |-> {2}])])
@@ -307,12 +321,12 @@ ForeignNames(i) == PickOne(OtherNames(i, i - 1)) \cup PickOne(OtherNames(i, i + 
                    \cup PickOne({g.n : g \in Globals(unit)} \ (VarNames(unit.pous[i]) \cup {unit.pous[i].n}))
                    \cup PouNames(i)
 PlantUndeclaredVar ==
-  \E i \in PouIdx(unit), j \in 1..4, role \in {"tgt", "src", "wrap", "arg", "out", "pos"} :
+  \E i \in PouIdx(unit), j \in 1..5, role \in {"tgt", "src", "wrap", "arg", "out", "pos"} :
    \E zz \in {"zz"} \cup ForeignNames(i) :
     /\ j <= Len(unit.pous[i].body)
     /\ LET s == unit.pous[i].body[j]
        IN  /\ CASE role = "tgt"  -> s.k = "assign"
-                [] role = "src"  -> s.k = "assign" /\ s.src[1] \in {"var", "sum", "fcall"}
+                [] role = "src"  -> s.k = "assign" /\ s.src[1] \in {"var", "sum", "fcall", "field", "index"}
                 [] role = "wrap" -> s.wrap[1] \notin {"-", "else"}
                 [] role = "arg"  -> s.k = "call" /\ s.named # <<>>
                 [] role = "out"  -> s.k = "call" /\ s.outs # <<>>
@@ -320,11 +334,16 @@ PlantUndeclaredVar ==
            /\ Edit(<<"plant:VarDeclared", unit.pous[i].n, j, role, zz>>,
                    SetStmt(unit, i, j,
                      CASE role = "tgt"  -> [s EXCEPT !.tgt = zz]
-                       [] role = "src"  -> [s EXCEPT !.src = IF s.src[1] = "var" THEN <<"var", zz>> ELSE IF s.src[1] = "sum" THEN <<"sum", s.src[2], zz>> ELSE <<"fcall", s.src[2], zz>>]
+                       [] role = "src"  -> [s EXCEPT !.src = IF s.src[1] = "var" THEN <<"var", zz>> ELSE IF s.src[1] = "sum" THEN <<"sum", s.src[2], zz>>
+                                                              ELSE IF s.src[1] = "field" THEN <<"field", zz, s.src[3]>>
+                                                              ELSE IF s.src[1] = "index" THEN <<"index", s.src[2], zz>> ELSE <<"fcall", s.src[2], zz>>]
                        [] role = "wrap" -> [s EXCEPT !.wrap[2] = zz]
                        [] role = "arg"  -> [s EXCEPT !.named[1] = <<s.named[1][1], zz>>]
                        [] role = "out"  -> [s EXCEPT !.outs[1] = <<s.outs[1][1], zz>>]
                        [] role = "pos"  -> [s EXCEPT !.pos[1] = zz]))
+\* an undeclared name in the condition of a transition of a chart
+PlantUndeclaredInTransition == \E n \in unit.sfc : \E zz \in {"zz"} :
+    Edit(<<"plant:VarDeclared", n, 0, "transition", zz>>, [unit EXCEPT !.tcond[n] = zz])
 \* an initial value that is not a value of the enumeration: in every variable class of every POU, in a structure element, in an alias
 PlantBadEnumInit ==
   \/ \E i \in PouIdx(unit), cls \in {"VAR", "VAR_INPUT", "VAR_OUTPUT"}, ty \in {"LEVEL", "LEVEL2"} :
@@ -385,13 +404,13 @@ PlantExternNotConst ==
   \/ \E i \in {1, 2} : Edit(<<"plant:ExternOfConstIsConst", unit.pous[i].n, "new">>, AddVarTo(unit, i, V("gk", "VAR_EXTERNAL", "-", "INT", NoInit)))
 
 Grow == (("grow" \in EditKinds) /\ (GrowVar \/ GrowConst \/ GrowStmt \/ GrowWrap \/ GrowEnumValue \/ GrowStructElem \/ GrowType \/ GrowTask
-                                     \/ GrowPositionalCall \/ GrowEmptyCall \/ GrowInOut \/ GrowGlobal \/ GrowPou \/ GrowConfig2 \/ GrowStdNamedType \/ GrowQualifyEnumValue \/ GrowQualifyUses \/ GrowQualifyUsesAlias))
-Plant == (("plant" \in EditKinds) /\ (PlantDupStructElem \/ PlantBadSubrange \/ PlantDupEnumValue \/ PlantUndeclaredVar \/ PlantBadEnumInit
+                                     \/ GrowPositionalCall \/ GrowEmptyCall \/ GrowInOut \/ GrowGlobal \/ GrowPou \/ GrowConfig2 \/ GrowStdNamedType \/ GrowQualifyEnumValue \/ GrowQualifyUses \/ GrowQualifyUsesAlias \/ GrowSfc \/ GrowFieldIndex))
+Plant == (("plant" \in EditKinds) /\ (PlantUndeclaredInTransition \/ PlantDupStructElem \/ PlantBadSubrange \/ PlantDupEnumValue \/ PlantUndeclaredVar \/ PlantBadEnumInit
                                        \/ PlantBadEnumStmt \/ PlantUnknownType \/ PlantStdlib \/ PlantUnknownInstance \/ PlantMix
                                        \/ PlantUnknownInput \/ PlantArity \/ PlantUnknownOutput \/ PlantUndefinedTask \/ PlantConstNoInit
                                        \/ PlantConstFB \/ PlantExternNotConst))
 
-IsGrow(e) == e[1] \in {"grow:qualify", "grow:qualifyuse", "grow:qualifyusealias", "grow:config2", "grow:stdnamedtype", "grow:inout", "grow:var", "grow:const", "grow:stmt", "grow:wrap", "grow:enumvalue", "grow:structelem", "grow:type", "grow:task",
+IsGrow(e) == e[1] \in {"grow:sfc", "grow:field", "grow:index", "grow:qualify", "grow:qualifyuse", "grow:qualifyusealias", "grow:config2", "grow:stdnamedtype", "grow:inout", "grow:var", "grow:const", "grow:stmt", "grow:wrap", "grow:enumvalue", "grow:structelem", "grow:type", "grow:task",
                        "grow:positionalcall", "grow:emptycall", "grow:global", "grow:pou"}
 
 Init == unit = Base /\ edits = <<>>
